@@ -114,7 +114,13 @@ def run_check(prop, tier, seed):
         log('[violation] scenario "%s": event %s (line %d) not explainable; rule groups %s' %
             (rec['scenario'].get('tag'), ev.get('ev'), rec['rejected_line'], rec['rule_groups']))
         print('VIOLATION property=%s replay=%s' % (prop, path))
+    fdir = os.path.join(core.OUT, 'foreign', prop)
+    shutil.rmtree(fdir, ignore_errors=True)
     for rec in foreign[:10]:
+        os.makedirs(fdir, exist_ok=True)
+        h = hashlib.sha1(json.dumps(rec['scenario'], sort_keys=True).encode()).hexdigest()[:12]
+        with open(os.path.join(fdir, h + '.json'), 'w') as f:
+            json.dump(rec, f, indent=1)
         log('[other-property] scenario "%s": event %s rejected, attributed to %s (not reported by this check)' %
             (rec['scenario'].get('tag'), rec['rejected_event'].get('ev'), rec['attributed_to']))
 
@@ -168,13 +174,19 @@ def replay(path):
 
 def one(prop, tagsub, tier='quick', seed=1):
     """development aid: run the scenarios of a property whose tag contains tagsub and print the diagnosis"""
-    scens = [s for s in gen.generate(prop, tier, seed) if tagsub in s.get('tag', '')][:3]
+    P = props.PROPS[prop]
+    spec = P.get('trace_spec', 'GoatTrace.tla')
+    scens = []
+    for part in P.get('parts') or [dict(gen=None)]:
+        got = [s for s in gen.generate(prop, tier, seed, genfn=part.get('gen')) if tagsub in s.get('tag', '')][:3]
+        if got:
+            scens, spec = got, part.get('trace_spec', spec)
+            break
     work = os.path.join(core.OUT, 'one_%d' % os.getpid())
     shutil.rmtree(work, ignore_errors=True)
     os.makedirs(work)
     driver = core.build_driver(work)
     traces, notes = core.run_scenarios(driver, scens, work)
-    spec = props.PROPS[prop].get('trace_spec', 'GoatTrace.tla')
     acc, st, rej = core.validate_traces(spec, traces, work)
     print('%d scenarios, %d accepted, %d rejected' % (len(scens), acc, len(rej)))
     for r in rej:
@@ -192,7 +204,7 @@ def main(argv):
     if argv and argv[0] == 'replay':
         return replay(argv[1])
     if argv and argv[0] == 'one':
-        return one(argv[1], argv[2])
+        return one(argv[1], argv[2], os.environ.get('VERIF_TIER', 'quick'), int(os.environ.get('VERIF_SEED', '1')))
     ap = argparse.ArgumentParser()
     ap.add_argument('prop')
     ap.add_argument('--tier', default=os.environ.get('VERIF_TIER', 'quick'))
